@@ -68,6 +68,10 @@ def generate(prop, rng, tier):
     cls = rng.choice(['DFT', 'DFT', 'FT'])
     nd = rng.choice([1, 1, 2, 2, 3])
     shape = [rng.choice(LENGTHS) for _ in range(nd)]
+    if rng.random() < 0.15:
+        # FFTW switches algorithms (and which plans may destroy their input)
+        # with the size: a few larger lengths in one axis
+        shape[rng.randrange(nd)] = rng.choice([16, 27, 64, 100, 128, 250])
     if cls == 'FT':
         shape = [max(2, s) for s in shape]
     dtype = rng.choice(['float64', 'complex128', 'float32', 'complex64',
